@@ -204,7 +204,8 @@ class SimRaw(io.RawIOBase):
         f = fs.read_fault
         if f is not None and f['kind'] == 'eio' and fs.raw_reads == f['at']:
             fs.fired('read_eio')
-            raise OSError(errno.EIO, 'simulated I/O error (read)', self.path)
+            raise OSError(f.get('errno', errno.EIO),
+                          'simulated I/O error (read)', self.path)
         n = min(len(b), max(0, len(self.data) - self.pos))
         if n > 1 and fs.short_rng is not None:
             m = fs.short_rng.randint(1, n)
@@ -229,7 +230,8 @@ class SimRaw(io.RawIOBase):
             if k == 'eio' and fs.raw_writes == f['at']:
                 fs.fired('write_eio')
                 raise OSError(
-                    errno.EIO, 'simulated I/O error (write)', self.path)
+                    f.get('errno', errno.EIO),
+                    'simulated I/O error (write)', self.path)
             if k in ('enospc', 'torn'):
                 room = f['after_bytes'] - fs.bytes_written
                 if room < n:
@@ -624,10 +626,28 @@ class UserFuncs:
         self.spy_calls = 0
         self.fired = 0
 
-    def namespace(self):
+    EXC = {'boom': ZeroDivisionError, 'oserr': FileNotFoundError,
+           'keyerr': KeyError, 'valerr': ValueError, 'rterr': RuntimeError,
+           'timeout': TimeoutError}
+
+    def namespace(self, tag=0):
         from xlcalculator.xlfunctions import xl
         ns = xl.FUNCTIONS.copy()
         uf = self
+
+        def WHO():
+            # differs between namespaces: whichever evaluator is asked must
+            # use *its own* function table
+            return tag
+
+        def make_raiser(exc):
+            def RAISER(*args):
+                raise exc('simulated persistent failure')
+            return RAISER
+
+        ns['WHO'] = WHO
+        for kind, exc in self.EXC.items():
+            ns['FAIL_' + kind.upper()] = make_raiser(exc)
 
         def SPY(x):
             uf.spy_calls += 1
